@@ -75,6 +75,10 @@ var c03Container = probe.Define("C03", "container",
 
 func TestC03(t *testing.T) {
 	c := probe.NewCtx(t, "C03")
+	if c.Shard == 0 {
+		endurance(c, "C03", "decode", 1100000)
+	}
+	runIDSweep(c, func(m model.Message) bool { return c03RoundTrip.Eval(c, c03In{Msg: m}) })
 	c03RoundTrip.Run(c, t, c.N(4000, 40000))
 	c03Container.Run(c, t, c.N(1500, 10000))
 }
